@@ -1,7 +1,7 @@
 (* C05/KNJoin.v -- Callback::Enter's join of the kept order-k n-grams with the gamma records of order k+1 (positional
    without pruning, by hash with pruning) delivers the specification's back-off weights. *)
 From Coq Require Import List NArith ZArith QArith Bool Lia Sorted.
-From Kenlm Require Import C05.KNDefs C05.KNSpec C05.KNModel C05.KNLex C05.KNAdjustE C06.SumQ C06.SumProofs.
+From Kenlm Require Import C05.KNDefs C05.KNSpec C05.KNModel C05.KNLex C05.KNAdjustE C06.SumQ C06.SumProofs C05.KNAddRight.
 Import ListNotations.
 
 (* ---- the two joins over abstract lists: A = all order-k n-grams (duplicate free), the stream holds the records of those
@@ -104,7 +104,7 @@ Section Join.
     backoffs_impl n o tab ds k = map (fun e => backoff n tab ds k (e_gram e)) (filter kept (ents tab k)).
   Proof.
     unfold backoffs_impl. destruct (Nat.ltb_spec k n) as [Hkn|Hkn].
-    - unfold gamma_stream. rewrite (contexts_eq Hkn).
+    - rewrite gamma_records_spec. unfold gamma_stream. rewrite (contexts_eq Hkn).
       assert (Hwant : forall l, (forall e, In e l -> In e (ents tab k)) ->
                 map (fun g => if qf g then gamma tab ds (S k) g else 1) (map e_gram l) = map (fun e => backoff n tab ds k (e_gram e)) l).
       { intros l Hl. rewrite map_map. apply map_ext_in. intros e He. apply (backoff_want Hkn). apply Hl. exact He. }
